@@ -948,26 +948,22 @@ class Message(ABC):
         )
 
     def __deepcopy__(self: T, _: Any = {}) -> T:
-        kwargs = {}
-        for name in self._betterproto.sorted_field_names:
-            value = self.__raw_get(name)
-            if value is not PLACEHOLDER:
-                kwargs[name] = deepcopy(value)
-        return self.__copy_state_to(self.__class__(**kwargs))  # type: ignore
+        return self.__copy_state_to(self.__class__(), deepcopy)  # type: ignore
 
     def __copy__(self: T, _: Any = {}) -> T:
-        kwargs = {}
+        return self.__copy_state_to(self.__class__(), lambda value: value)  # type: ignore
+
+    def __copy_state_to(self: T, clone: T, dup: Callable[[Any], Any]) -> T:
+        # The state is stored directly. Replaying it through the constructor would
+        # re-derive presence from the arguments, and __setattr__ would mark field-less
+        # sub-messages (of the clone, or shared with the original) as present.
         for name in self._betterproto.sorted_field_names:
             value = self.__raw_get(name)
             if value is not PLACEHOLDER:
-                kwargs[name] = value
-        return self.__copy_state_to(self.__class__(**kwargs))  # type: ignore
-
-    def __copy_state_to(self: T, clone: T) -> T:
-        # __post_init__ guessed these from the constructor arguments; a copy
-        # has the presence and the unknown fields of its original.
+                clone.__dict__[name] = dup(value)
         clone.__dict__["_serialized_on_wire"] = self._serialized_on_wire
         clone.__dict__["_unknown_fields"] = self._unknown_fields
+        clone.__dict__["_group_current"] = dict(self._group_current)
         return clone
 
     @classproperty
